@@ -1231,3 +1231,54 @@ example : ∃ M, multiorderLaplacian [2, 3] false false exN exWq = some (MultiLa
         · rcases List.mem_cons.1 hσ with rfl | hσ; · norm_num
           · cases hσ) M h
   exact ⟨M, h, L, hL⟩
+
+/-- Duality: the dual hypergraph has one node per hyperedge and one hyperedge per node `i` (the indices of the hyperedges
+containing the node of row `i`). `hye_list_to_binary_incidence` accepts it with the shape `(E, N)` and the incidence matrix
+of the dual is the TRANSPOSE of the binary incidence matrix: entry `(j, i)` of the one is entry `(i, j)` of the other. -/
+theorem C09_dual_incidence_transpose {R : Type} [CommRing R] (nodes : List Nat) (edges : List Edge)
+    (hN : nodes.Nodup) (hE : ∀ e ∈ edges, ∀ x ∈ e, x ∈ nodes) :
+    ∃ T : List (List R), dualInc nodes edges = some T
+      ∧ ∀ j i, j < edges.length → i < nodes.length →
+          entry T j i = entry (binInc nodes edges : List (List R)) i j := by
+  have hl := classes_length nodes hN
+  have hlen : (dualHyes nodes edges).length = nodes.length := by simp [dualHyes, hl]
+  obtain ⟨_, hinf, hnone, hent⟩ := C09_hye_list (R := R) (dualHyes nodes edges) (some (edges.length, nodes.length))
+  have hlt : ∀ e ∈ dualHyes nodes edges, ∀ x ∈ e, x < edges.length := by
+    intro e he x hx
+    obtain ⟨a, _, rfl⟩ := List.mem_map.1 he
+    exact List.mem_range.1 (List.mem_filter.1 hx).1
+  cases hT : (dualInc nodes edges : Option (List (List R))) with
+  | none =>
+    exfalso
+    obtain ⟨n, e, hs, hbad⟩ := hnone.1 hT
+    cases hs
+    rcases hbad with h | h
+    · exact absurd (hinf _ hlt) (Nat.not_le.2 h)
+    · rw [hlen] at h; exact Nat.lt_irrefl _ h
+  | some T =>
+    refine ⟨T, rfl, ?_⟩
+    intro j i hj hi
+    rw [hent T hT j i (by simpa using hj) (by simpa using hi),
+      C09_incidence nodes edges hN hE i j (by rw [hl]; exact hi) hj]
+    congr 1
+    have hi' : i < (classes nodes).length := by rw [hl]; exact hi
+    have hget : (dualHyes nodes edges)[i]? = some ((List.range edges.length).filter fun j' =>
+        (edges.getD j' []).contains (classes nodes)[i]) := by
+      simp [dualHyes, List.getElem?_map, List.getElem?_eq_getElem hi']
+    have hiff : (∃ e, (dualHyes nodes edges)[i]? = some e ∧ j ∈ e) ↔ (classes nodes)[i] ∈ edges[j] := by
+      rw [hget]
+      constructor
+      · rintro ⟨e, he, hje⟩
+        cases he
+        have := (List.mem_filter.1 hje).2
+        simpa [List.getD_eq_getElem?_getD, List.getElem?_eq_getElem hj] using this
+      · intro h
+        refine ⟨_, rfl, List.mem_filter.2 ⟨List.mem_range.2 hj, ?_⟩⟩
+        simpa [List.getD_eq_getElem?_getD, List.getElem?_eq_getElem hj] using h
+    by_cases h : (classes nodes)[i] ∈ edges[j]
+    · rw [if_pos h, if_pos (hiff.2 h)]
+    · rw [if_neg h, if_neg (fun h' => h (hiff.1 h'))]
+
+example : dualHyes [5, 1, 9, 4] [[1, 5], [5, 1, 9]] = [[0, 1], [], [0, 1], [1]]
+    ∧ (dualInc [5, 1, 9, 4] [[1, 5], [5, 1, 9]] : Option (List (List Int))) = some [[1, 0, 1, 0], [1, 0, 1, 1]]
+    ∧ (binInc [5, 1, 9, 4] [[1, 5], [5, 1, 9]] : List (List Int)) = [[1, 1], [0, 0], [1, 1], [0, 1]] := by decide
